@@ -5,7 +5,10 @@ use rayon::prelude::*;
 use std::collections::{BTreeMap, HashSet};
 use std::time::Instant;
 
-pub const VERIF_DIR: &str = "/verif";
+/// Where the framework lives (known findings, evidence, replays): $VERIF_HOME, default /verif.
+pub fn verif_dir() -> String {
+    std::env::var("VERIF_HOME").unwrap_or_else(|_| "/verif".to_string())
+}
 
 #[derive(Clone, Debug)]
 pub struct Issue {
@@ -73,7 +76,7 @@ pub struct KnownFinding {
 }
 
 pub fn load_known_findings(property: &str) -> Vec<KnownFinding> {
-    let path = format!("{}/known_findings.txt", VERIF_DIR);
+    let path = format!("{}/known_findings.txt", verif_dir());
     let Ok(text) = std::fs::read_to_string(&path) else { return vec![] };
     let mut out = vec![];
     for line in text.lines() {
@@ -107,7 +110,7 @@ pub fn load_known_findings(property: &str) -> Vec<KnownFinding> {
                 "name" => kf.name = v.to_string(),
                 "selector" => kf.selector = v == "true",
                 "cases" => {
-                    let p = format!("{}/{}", VERIF_DIR, v);
+                    let p = format!("{}/{}", verif_dir(), v);
                     if let Ok(t) = std::fs::read_to_string(&p) {
                         for l in t.lines() {
                             let l = l.trim();
@@ -320,9 +323,16 @@ impl Run {
         for v in &violations {
             by_clause.entry(v.clause.clone()).or_default().push(v);
         }
-        let _ = std::fs::create_dir_all(format!("{}/replays", VERIF_DIR));
+        let _ = std::fs::create_dir_all(format!("{}/replays", verif_dir()));
         let mut vio_json = vec![];
-        for (clause, list) in &by_clause {
+        // at most 12 clauses are printed / given replay files (all are counted); panic clauses whose messages differ only
+        // in numbers would otherwise flood the output
+        let total_clauses = by_clause.len();
+        for (ci, (clause, list)) in by_clause.iter().enumerate() {
+            if ci >= 12 {
+                println!("  ... and {} more violated clauses (see the evidence file for the counts)", total_clauses - 12);
+                break;
+            }
             // shortest case id first
             let mut list: Vec<&&Issue> = list.iter().collect();
             list.sort_by_key(|i| (i.case.len(), i.case.clone()));
@@ -331,7 +341,7 @@ impl Run {
                     break;
                 }
                 let h = hash_str(&format!("{}|{}|{}", self.property, clause, i.case));
-                let path = format!("{}/replays/{}-{:016x}.replay", VERIF_DIR, self.property, h);
+                let path = format!("{}/replays/{}-{:016x}.replay", verif_dir(), self.property, h);
                 let text = format!("property={}\nclause={}\ncase={}\ndetail={}\n{}", self.property, clause, i.case, i.detail.replace('\n', " "), i.replay);
                 let _ = std::fs::write(&path, text);
                 println!("VIOLATION property={} replay={}", self.property, path);
@@ -390,8 +400,8 @@ impl Run {
             ("wall_s", J::Num(wall)),
             ("violations", J::Int(nvio as i64)),
         ]);
-        let _ = std::fs::create_dir_all(format!("{}/evidence", VERIF_DIR));
-        let path = std::env::var("VERIF_EVIDENCE_PATH").unwrap_or_else(|_| format!("{}/evidence/{}.json", VERIF_DIR, self.property));
+        let _ = std::fs::create_dir_all(format!("{}/evidence", verif_dir()));
+        let path = std::env::var("VERIF_EVIDENCE_PATH").unwrap_or_else(|_| format!("{}/evidence/{}.json", verif_dir(), self.property));
         if let Err(e) = std::fs::write(&path, ev.render()) {
             eprintln!("MACHINERY: cannot write {}: {}", path, e);
             return 2;
